@@ -21,7 +21,7 @@ assert os.path.realpath(freephil.__file__).startswith(os.path.realpath(SRC) + os
 from freephil import tokenizer  # noqa: E402
 warnings.filterwarnings("ignore")  # freephil re-enables its deprecation warnings on import
 
-DRV = os.environ.get("VERIF_DRV") or os.path.join(VERIF, "lean", ".lake", "build", "bin", "drv")
+DRV = os.environ.get("VERIF_DRV") or os.path.join(os.environ.get("VERIF_LEAN") or os.path.join(VERIF, "lean"), ".lake", "build", "bin", "drv")
 AutoT = type(freephil.Auto)
 
 
@@ -132,6 +132,11 @@ _sites = [
     ("Undefined variable:", "undefined_variable"),
     ("Not a definition:", "not_a_definition"),
     ("Include dependency cycle", "include_cycle"),
+    ('"include" must be followed by at least two arguments', "include_two_arguments"),
+    ('"include file" must be followed exactly one argument', "include_file_one_argument"),
+    ('"include scope" must be followed one or two arguments', "include_scope_arguments"),
+    ('include scope: path "', "include_scope_not_found"),
+    ("Unknown include type:", "unknown_include_type"),
     ("Duplicate definitions in master", "duplicate_master"),
     ("Incompatible parameter objects", "incompatible"),
     ("Too many values for", "too_many"),
